@@ -194,6 +194,39 @@ class Gate(io.RawIOBase):
             pass
 
 
+class GateRW(Gate):
+    """read-write handle (modes r+ / w+ / a+): reads and seeks pass through, writes and truncation
+    are subject to the same fault plan as write-only handles"""
+
+    def readable(self):
+        return True
+
+    def seekable(self):
+        return True
+
+    def readinto(self, b):
+        data = _real_fd["read"](self.fd, len(b))
+        b[:len(data)] = data
+        return len(data)
+
+    def seek(self, off, whence=0):
+        return _real_fd["lseek"](self.fd, off, whence)
+
+    def tell(self):
+        return _real_fd["lseek"](self.fd, 0, 1)
+
+    def truncate(self, size=None):
+        if self.owner_dead():
+            return size if size is not None else self.tell()
+        if size is None:
+            size = self.tell()
+        SIM.event("truncate", self.rel, size)
+        if self.owner_dead():
+            return size
+        os.ftruncate(self.fd, size)
+        return size
+
+
 class RFile:
     """recording proxy around a real binary read-mode file"""
 
@@ -267,9 +300,25 @@ def sim_open(file, mode="r", buffering=-1, encoding=None, errors=None, newline=N
         return _real_open(file, mode, buffering, encoding, errors, newline, closefd, opener)
     writing = any(c in mode for c in "wax+")
     if writing:
-        if "+" in mode:   # not used by the code under test; recorded, not gated
-            SIM.event("open-rw", rel(p))
-            return _real_open(file, mode, buffering, encoding, errors, newline, closefd, opener)
+        if "+" in mode:
+            if SIM.is_dead():
+                raw = GateRW(p, _real_os_open(os.devnull, os.O_RDWR))
+            else:
+                SIM.event("open-w", rel(p), mode.replace("b", "").replace("t", ""))
+                flags = os.O_RDWR | os.O_CLOEXEC
+                if "w" in mode:
+                    flags |= os.O_CREAT | os.O_TRUNC
+                elif "a" in mode:
+                    flags |= os.O_CREAT | os.O_APPEND
+                elif "x" in mode:
+                    flags |= os.O_CREAT | os.O_EXCL
+                raw = GateRW(p, _real_os_open(p, flags, 0o666))
+            if buffering == 0 and "b" in mode:
+                return raw
+            buf = io.BufferedRandom(raw)
+            if "b" in mode:
+                return buf
+            return io.TextIOWrapper(buf, encoding=encoding, errors=errors, newline=newline)
         if SIM.is_dead():
             return _wrap_gate(p, _real_os_open(os.devnull, os.O_WRONLY), mode, buffering,
                               encoding, errors, newline)
